@@ -4,7 +4,10 @@ All statements are about the exact rational list-of-lists model `Model/Linalg.le
 
 Main tools: `WF n m` (well-formed `n × n` matrix), `rsum n f = Σ_{k<n} f k` with a bridge to `Finset.sum`,
 the entry formula `entry_mul`, extensionality `Mat.ext`, associativity of `mul`, `powFast = pow`,
-walks in the boolean support graph and their relation to positive entries of powers.
+walks in the boolean support graph (`Walk`) and their relation to positive entries of powers (`pow_pos_iff_walk`),
+`ergodicMask` (`maskRel`, `maskCnt`), the linear system of `stationary` (`statMatrix`, `eq_of_left_inverse`),
+`restrict`/`embed` (`embed_stationary_aux`), correctness of the Gauss–Jordan inverse (`gjStep_spec`, `gjStep_phi_iff`,
+`gjStep_unit_cols`, `gjRun_spec`, `inverse_spec`, `stationary_spec`) and block matrices `T ⊕ (d)` (`addState`).
 -/
 import MsmVerif.Model.Linalg
 import Mathlib.Tactic.Linarith
@@ -1499,5 +1502,41 @@ theorem isFuzzyErgodic_addState {T : Mat} (p : NonNeg T) (h : isErgodic T = true
       have hpos := (pow_pos_iff_walk hw' p' _ (by omega) (by omega)).mpr hwalk'
       rw [powFast_eq_pow hw']
       simp [hpos]
+
+theorem length_ergodicMask {m : Mat} {mask : List Bool} (h : ergodicMask m = some mask) : mask.length = m.length := by
+  rw [ergodicMask_eq (isTmat_of_ergodicMask h)] at h
+  injection h with h
+  subst h
+  simp
+
+theorem map_div_one (v : Vec) : v.map (· / (1 : Rat)) = v := by
+  conv => rhs; rw [← List.map_id v]
+  apply List.map_congr_left
+  intro x _
+  simp
+
+theorem Walk.one_iff (b : List (List Bool)) (i j : Nat) : Walk b 1 i j ↔ bent b i j = true := by
+  constructor
+  · rintro ⟨l, h1, h2⟩
+    have : i = l := h1
+    rw [this]; exact h2
+  · intro h; exact ⟨i, rfl, h⟩
+
+theorem Walk.add_iff (b : List (List Bool)) (a c i j : Nat) :
+    Walk b (a + c) i j ↔ ∃ l, Walk b a i l ∧ Walk b c l j := by
+  induction c generalizing j with
+  | zero =>
+    constructor
+    · intro h; exact ⟨j, h, rfl⟩
+    · rintro ⟨l, h1, h2⟩
+      have : l = j := h2
+      rw [← this]; exact h1
+  | succ c ih =>
+    constructor
+    · rintro ⟨l', h1, h2⟩
+      obtain ⟨l, h3, h4⟩ := (ih l').mp h1
+      exact ⟨l, h3, l', h4, h2⟩
+    · rintro ⟨l, h3, l', h4, h2⟩
+      exact ⟨l', (ih l').mpr ⟨l, h3, h4⟩, h2⟩
 
 end MsmVerif.Linalg
